@@ -131,7 +131,7 @@ impl<'a> GroupResource<'a> {
 	#[cfg(feature = "std")]
 	pub fn write(&self, dest: &mut dyn io::Write) -> io::Result<()> {
 		// Start by appending the header
-		dest.write(dataview::bytes(self.image))?;
+		dest.write_all(dataview::bytes(self.image))?;
 		// Write all the icon entries
 		let entries = self.entries();
 		let mut image_offset = (6 + entries.len() * 16) as u32;
@@ -142,7 +142,7 @@ impl<'a> GroupResource<'a> {
 			dataview::bytes_mut(&mut icon_entry)[..14].copy_from_slice(dataview::bytes(entry));
 			icon_entry[3] = image_offset;
 			image_offset = image_offset.wrapping_add(entry.bytes_in_resource());
-			dest.write(dataview::bytes(&icon_entry))?;
+			dest.write_all(dataview::bytes(&icon_entry))?;
 		}
 		// Append the bytes for every entry
 		for entry in entries {
@@ -151,7 +151,7 @@ impl<'a> GroupResource<'a> {
 			// Ignoring this check may lead to corrupt icon files
 			if let Ok(bytes) = self.image(entry.nId) {
 				// assert_eq!(entry.bytes_in_resource() as usize, bytes.len());
-				dest.write(bytes)?;
+				dest.write_all(bytes)?;
 			}
 		}
 		Ok(())
